@@ -76,7 +76,7 @@ func genWKTDef(t *rapid.T) projkit.Def {
 
 func gen(t *rapid.T) Case {
 	var c Case
-	c.Kind = rapid.SampledFrom([]string{"wkt", "wkt", "wkt", "name", "equal"}).Draw(t, "kind")
+	c.Kind = rapid.SampledFrom([]string{"wkt", "wkt", "wkt", "name", "equal", "equal", "equalwkt"}).Draw(t, "kind")
 	switch c.Kind {
 	case "wkt":
 		c.D = genWKTDef(t)
@@ -95,6 +95,35 @@ func gen(t *rapid.T) Case {
 	case "name":
 		c.Name = rapid.SampledFrom(regNames).Draw(t, "name")
 		c.Lon, c.Lat = rapid.Float64Range(-179, 179).Draw(t, "lon"), rapid.Float64Range(-84, 84).Draw(t, "lat")
+	case "equalwkt":
+		// two references both parsed from WKT (same PROJCS name, as files written by one tool have): identical, one
+		// parameter / the unit / the datum changed, or unrelated
+		c.D = genWKTDef(t)
+		o := c.D
+		switch rapid.IntRange(0, 5).Draw(t, "wrelation") {
+		case 0:
+		case 1:
+			o.Lon0 += 6
+		case 2:
+			o.X0 += 1000
+		case 3:
+			if o.ToMeter == 0 {
+				o.ToMeter = 0.3048
+			} else {
+				o.ToMeter = 0
+			}
+			if o.Proj == "longlat" {
+				o.Lon0 += 0 // no linear unit: stays identical
+			}
+		case 4:
+			o.DatumKind, o.Datum, o.Towgs = "towgs", "", []float64{5, 0, -3}
+		default:
+			o = genWKTDef(t)
+		}
+		c.Other = &o
+		c.WKTOpt = projkit.WKTOpts{ESRI: rapid.Bool().Draw(t, "esri"), Authority: rapid.Bool().Draw(t, "auth"), UnitFirst: rapid.Bool().Draw(t, "unitfirst")}
+		c.Variant = rapid.IntRange(0, 5).Draw(t, "variant")
+		c.Lon, c.Lat = projkit.GenPosition(t, c.D)
 	case "equal":
 		c.D = projkit.GenDef(t, projkit.Opts{})
 		o := c.D
@@ -219,7 +248,7 @@ func runWKT(c Case) (v vkit.Verdict) {
 	if c.D.Proj == "longlat" {
 		tol = 1e-11
 	}
-	if math.Abs(px-wx) > tol || math.Abs(py-wy) > tol {
+	if vkit.Off(px-wx, tol) || vkit.Off(py-wy, tol) {
 		return fail("WGS84 (%v, %v) -> CRS: PROJ.4 parse gives (%.9f, %.9f) but WKT parse gives (%.9f, %.9f): differ by (%.3g, %.3g) > %.3g units", c.Lon, c.Lat, px, py, wx, wy, math.Abs(px-wx), math.Abs(py-wy), tol)
 	}
 	// and back (fresh parses: the constructors fill defaults into the SR)
@@ -231,7 +260,7 @@ func runWKT(c Case) (v vkit.Verdict) {
 	if e1 != nil || e2 != nil {
 		return fail("CRS (%v, %v) -> WGS84: PROJ.4 parse (%v, %v, %v), WKT parse (%v, %v, %v)", px, py, bx, by, e1, cx, cy, e2)
 	}
-	if math.Abs(bx-cx) > 1e-11 || math.Abs(by-cy) > 1e-11 {
+	if vkit.Off(bx-cx, 1e-11) || vkit.Off(by-cy, 1e-11) {
 		return fail("CRS (%v, %v) -> WGS84: PROJ.4 parse gives (%.12f, %.12f), WKT parse (%.12f, %.12f)", px, py, bx, by, cx, cy)
 	}
 	// to each other
@@ -243,7 +272,7 @@ func runWKT(c Case) (v vkit.Verdict) {
 	if p7, ok := c.D.ToWGS84(); ok && (p7[3] != 0 || p7[4] != 0 || p7[5] != 0) {
 		rot = true // the WGS84 step there and back uses PROJ.4's small-angle inverse Helmert: millimetres, magnified by the map scale
 	}
-	if e3 != nil || (!rot && (math.Abs(ex-px) > 5e4*tol || math.Abs(ey-py) > 5e4*tol)) {
+	if e3 != nil || (!rot && (vkit.Off(ex-px, 5e4*tol) || vkit.Off(ey-py, 5e4*tol))) {
 		return fail("PROJ.4 parse -> WKT parse maps (%v, %v) to (%v, %v, %v)", px, py, ex, ey, e3)
 	}
 	// parsing the same text twice gives Equal references
@@ -263,7 +292,7 @@ func runWKT(c Case) (v vkit.Verdict) {
 	// proj4js on the same WKT (third opinion)
 	if c.HaveJS && c.JS != nil {
 		v.Class("proj4js_third_opinion")
-		if math.Abs(wx-c.JS[0]) > 1e-4/u || math.Abs(wy-c.JS[1]) > 1e-4/u {
+		if vkit.Off(wx-c.JS[0], 1e-4/u) || vkit.Off(wy-c.JS[1], 1e-4/u) {
 			return fail("WGS84 (%v, %v) -> WKT CRS: Go gives (%.6f, %.6f), proj4js gives (%.6f, %.6f)", c.Lon, c.Lat, wx, wy, c.JS[0], c.JS[1])
 		}
 	}
@@ -297,7 +326,7 @@ func runName(c Case) (v vkit.Verdict) {
 	ax, ay, e1 := tr(g, n1, c.Lon, lat)
 	dd, _ := proj.Parse(registered[c.Name])
 	bx, by, e2 := tr(g, dd, c.Lon, lat)
-	if (e1 != nil) != (e2 != nil) || (e1 == nil && (math.Abs(ax-bx) > 1e-6 || math.Abs(ay-by) > 1e-6)) {
+	if (e1 != nil) != (e2 != nil) || (e1 == nil && (vkit.Off(ax-bx, 1e-6) || vkit.Off(ay-by, 1e-6))) {
 		return v.Fail("WGS84 (%v, %v) -> %s gives (%v, %v, %v) but -> its definition gives (%v, %v, %v)", c.Lon, lat, c.Name, ax, ay, e1, bx, by, e2)
 	}
 	return v
@@ -306,6 +335,10 @@ func runName(c Case) (v vkit.Verdict) {
 func runEqual(c Case) (v vkit.Verdict) {
 	v.Class("equal")
 	s1, s2 := c.D.String(), c.Other.String()
+	if c.Kind == "equalwkt" {
+		v.Class("equal_both_from_wkt")
+		s1, s2 = c.D.WKT(c.WKTOpt, c.Variant), c.Other.WKT(c.WKTOpt, c.Variant)
+	}
 	if c.Drop != "" {
 		var kept []string
 		for _, w := range strings.Fields(s1) {
@@ -358,7 +391,7 @@ func runEqual(c Case) (v vkit.Verdict) {
 		ax, ay, e1 := tr(g, a2, c.Lon, c.Lat)
 		g3, _ := mustParse(wgsGeo)
 		bx, by, e2 := tr(g3, b2, c.Lon, c.Lat)
-		if (e1 != nil) != (e2 != nil) || (e1 == nil && (math.Abs(ax-bx) > 1e-6 || math.Abs(ay-by) > 1e-6)) {
+		if (e1 != nil) != (e2 != nil) || (e1 == nil && (vkit.Off(ax-bx, 1e-6) || vkit.Off(ay-by, 1e-6))) {
 			return v.Fail("%q and %q are Equal (NewTransform gives the identity) but WGS84 (%v, %v) maps to (%v, %v, %v) in one and (%v, %v, %v) in the other", s1, s2, c.Lon, c.Lat, ax, ay, e1, bx, by, e2)
 		}
 	}
@@ -384,7 +417,7 @@ func TestProp(t *testing.T) {
 			"in the declared unit. Oracle: transformers WGS84->CRS from both parses agree within 1 micrometre, CRS->WGS84 within 1e-11 deg, PROJ.4 parse -> WKT parse is the identity within 5 cm and without error (an inverse followed by a forward projection, limited by the 1e-10 rad stopping rule of the iterative inverses times the map scale; value not compared for datums with rotations, where the WGS84 step uses the small-angle inverse Helmert), " +
 			"no error/NaN; same text parsed twice is Equal(.,0) and NewTransform between them is nil; proj4js on the same WKT agrees within 0.1 mm (named datums only - proj4js 2.3.12 ignores TOWGS84 clauses in WKT - and when node is available); every tenth case reads the WKT through " +
 			"(*shp.Decoder).SR from a .prj file. Registered names vs their definitions: Equal both ways, nil transformer, same outputs. Equal/NewTransform on generated pairs (identical, towgs84 lists of " +
-			"different length, one parameter changed, one parameter present on one side only, unrelated): no panic, symmetric, NewTransform nil iff Equal, and Equal references map WGS84 positions identically. Non-trivial = non-metre unit, " +
+			"different length, one parameter changed, one parameter present on one side only, unrelated; and pairs both rendered as WKT with the same PROJCS name - identical, central meridian / false easting / unit / datum changed, unrelated): no panic, symmetric, NewTransform nil iff Equal, and Equal references map WGS84 positions identically. Non-trivial = non-metre unit, " +
 			"TOWGS84 clause, OGC-dialect Albers; name cases; equal cases with different towgs84 lengths or Equal true. Distinct by case hash.",
 		Assumptions: []string{"WKT without blanks after commas (as GDAL and ESRI write .prj files)", "definitions that give no datum information are not compared across notations (PROJ.4 text: unknown datum; WKT: always names a datum)"},
 		Gen:         gen,
